@@ -34,26 +34,41 @@ func c10parse(key string) (cid, seq int, ok bool) {
 func runC10(c *Check, rng *rand.Rand) {
 	c.Rule = "oracle 1: on every backend connection the subsequence of commands caused by one client connection must be increasing in the client's sequence numbers (mixed single and split requests, chunked client writes, gated replies, node read pauses that force the proxy to park requests); oracle 2: pipelined unique SET/GET on few keys against a real key-value fake node, history checked with porcupine against a per-key register that also enforces per-connection program order; distinct = (clients, pipeline length, pause pattern) / keys checked"
 	c.Assumptions = []string{"server_connections: 1 as the property states; replica reads disabled in the register experiment so that reads are served by the master"}
-	c10order(c, rng)
+	c10order(c, rng, "")
+	c10order(c, rng, "pw10")
+	c10moved(c, rng)
 	c10backpressure(c, rng)
 	c10register(c, rng)
 	c.MinEvals = 10
 }
 
-func c10order(c *Check, rng *rand.Rand) {
-	env, err := NewEnv(EnvOpt{Masters: 3})
+func c10order(c *Check, rng *rand.Rand, password string) {
+	env, err := NewEnv(EnvOpt{Masters: 3, Cfg: ProxyCfg{Password: password}})
 	must(err, "start env")
 	defer env.Close()
 	script := NewScript()
 	env.Cl.SetHandler(script.Handler)
 	episodes := c.Pick(10, 150)
 	cidBase := 0
+	if password != "" {
+		// with a password every fresh backend connection starts with a handshake that is
+		// still in progress when the first pipeline is routed: connections are killed
+		// between episodes so that this happens again and again
+		episodes = c.Pick(12, 150)
+		cidBase = 200000
+	}
 	for ep := 0; ep < episodes; ep++ {
 		if !env.P.Alive() {
 			c.Violate(Violation{Class: "proxy-died", Shape: "order-workload", Detail: env.P.PanicLine(), Witness: env.P.OutputTail(2000)})
 			return
 		}
 		env.Cl.ResetLog()
+		if password != "" {
+			for _, n := range env.Cl.Nodes {
+				n.KillConns()
+			}
+			env.Barrier()
+		}
 		nclients := 1 + rng.Intn(8)
 		plen := 10 + rng.Intn(c.Pick(300, 3000))
 		pause := ep%3 == 1
@@ -149,30 +164,35 @@ func c10order(c *Check, rng *rand.Rand) {
 			}
 			cl.Close()
 		}
-		// oracle 1
-		type ck struct{ node, conn, cid int }
-		last := map[ck]int{}
+		// oracle 1: per node (one backend connection is configured, so across whatever
+		// connections the proxy used) the commands of one client arrive in its order
 		nreq := 0
 		for _, n := range env.Cl.Nodes {
+			var all []*BReq
 			for _, bc := range n.Conns() {
 				for _, r := range bc.Requests() {
-					if _, ok := CmdTable[r.Cmd]; !ok {
-						continue
+					if _, ok := CmdTable[r.Cmd]; ok {
+						all = append(all, r)
 					}
-					cid, seq, ok := c10parse(FirstKey(r))
-					if !ok {
-						continue
-					}
-					nreq++
-					k := ck{n.Index, bc.ID, cid}
-					if prev, ok := last[k]; ok && seq < prev {
-						c.Violate(Violation{Class: "per-node-order-inverted", Shape: fmt.Sprintf("pause=%v/slow=%v", pause, slow),
-							Detail:  fmt.Sprintf("node %d connection %d: request #%d of client %d arrived after its request #%d", n.Index, bc.ID, seq, cid, prev),
-							Witness: map[string]interface{}{"clients": nclients, "pipeline_len": plen, "node_paused_reading": pause, "command": Q(r.Raw[:minInt(len(r.Raw), 200)])}})
-						break
-					}
-					last[k] = seq
 				}
+			}
+			sort.Slice(all, func(i, j int) bool { return all[i].Clock < all[j].Clock })
+			last := map[int]*BReq{}
+			lastSeq := map[int]int{}
+			for _, r := range all {
+				cid, seq, ok := c10parse(FirstKey(r))
+				if !ok {
+					continue
+				}
+				nreq++
+				if prev, ok := lastSeq[cid]; ok && seq < prev {
+					c.Violate(Violation{Class: "per-node-order-inverted", Shape: fmt.Sprintf("pause=%v/slow=%v/password=%v", pause, slow, password != ""),
+						Detail:  fmt.Sprintf("node %d: request #%d of client %d (connection %d) arrived after its request #%d (connection %d)", n.Index, seq, cid, r.Conn.ID, prev, last[cid].Conn.ID),
+						Witness: map[string]interface{}{"clients": nclients, "pipeline_len": plen, "node_paused_reading": pause, "command": Q(r.Raw[:minInt(len(r.Raw), 200)])}})
+					break
+				}
+				lastSeq[cid] = seq
+				last[cid] = r
 			}
 		}
 		if mf := env.Cl.MalformedSeen(); len(mf) > 0 {
@@ -287,6 +307,87 @@ func c10backpressure(c *Check, rng *rand.Rand) {
 		c.Count("backend_commands_order_checked", int64(nreq))
 		c.Count("backpressure_episodes", 1)
 		c.Distinct(fmt.Sprintf("backpressure/%d/%d", nclients, ep))
+	}
+}
+
+// c10moved: pipelined requests of one client for a slot that has moved: all of them
+// are answered MOVED by the old owner and re-sent to the new one, where they must
+// arrive in the order the client sent them.
+func c10moved(c *Check, rng *rand.Rand) {
+	env, err := NewEnv(EnvOpt{Masters: 3})
+	must(err, "start env")
+	defer env.Close()
+	var mu sync.Mutex
+	moved := map[int]*Node{} // slot -> new owner
+	env.Cl.SetHandler(func(r *BReq) Action {
+		slot := KeySlot([]byte(FirstKey(r)))
+		mu.Lock()
+		to := moved[slot]
+		mu.Unlock()
+		if to != nil && r.Node != to {
+			return Action{Reply: ErrReply(fmt.Sprintf("MOVED %d %s", slot, to.Addr))}
+		}
+		return Action{Reply: StatusReply("OK")}
+	})
+	base := 500000
+	for ep := 0; ep < c.Pick(25, 400); ep++ {
+		if !env.P.Alive() {
+			c.Violate(Violation{Class: "proxy-died", Shape: "moved-slot-pipeline", Detail: env.P.PanicLine(), Witness: env.P.OutputTail(2000)})
+			return
+		}
+		slot := rng.Intn(16384)
+		owner := env.T.Owner(slot).Node
+		var target *Node
+		for _, tn := range env.T.Nodes {
+			if tn.Node != owner {
+				target = tn.Node
+			}
+		}
+		mu.Lock()
+		moved[slot] = target
+		mu.Unlock()
+		cid := base + ep
+		cl, err := env.Dial()
+		must(err, "dial")
+		n := 2 + rng.Intn(12)
+		var batch []byte
+		for seq := 0; seq < n; seq++ {
+			key := Key(slot, fmt.Sprintf("o%d.%d", cid, seq))
+			if seq%2 == 0 {
+				batch = append(batch, Req("SET", key, "v")...)
+			} else {
+				batch = append(batch, Req("GET", key)...)
+			}
+		}
+		cl.Send(batch)
+		if !cl.WaitReplies(n, 10*time.Second) {
+			c.Count("moved_episode_incomplete_replies(C13 subject)", 1)
+		}
+		cl.Close()
+		last := -1
+		nreq := 0
+		for _, bc := range target.Conns() {
+			for _, r := range bc.Requests() {
+				id, seq, ok := c10parse(FirstKey(r))
+				if !ok || id != cid {
+					continue
+				}
+				nreq++
+				if seq < last {
+					c.Violate(Violation{Class: "per-node-order-inverted", Shape: "requests-redirected-by-MOVED",
+						Detail:  fmt.Sprintf("slot moved to node %d: request #%d of the client arrived there after its request #%d", target.Index, seq, last),
+						Witness: map[string]interface{}{"pipeline_len": n, "slot": slot}})
+					break
+				}
+				last = seq
+			}
+		}
+		mu.Lock()
+		delete(moved, slot)
+		mu.Unlock()
+		c.Eval(1)
+		c.Count("backend_commands_order_checked", int64(nreq))
+		c.Distinct(fmt.Sprintf("moved/%d", n))
 	}
 }
 
